@@ -41,39 +41,79 @@ ArithErrs == {"DIVIDE_BY_ZERO", "SUBTRACT_INFINITY", "INFINITY_DIV_INFINITY"}
 (* Named deviations.  Each returns a key, or "" when it does not apply.    *)
 (***************************************************************************)
 
-\* DIVIDE / MODULO return a value although the divisor is zero somewhere:
-\* the recursion took a shortcut before reaching the zero divisor -
-\*   first-operand-zero : the dividend is 0 at every point where the divisor is 0
-\*   equal-operands     : dividend = divisor at every point where the divisor is 0
-\* and the returned table is right wherever the divisor is non-zero.
-DevDivShortcut(ev, out) ==
-    IF ~(ev.e = "Bin" /\ ev.op \in {"DIVIDE", "MODULO"} /\ ev.ok = 1 /\ ~out.ok
-         /\ out.errs = {"DIVIDE_BY_ZERO"} /\ Has(ev.res, "fn")
+\* An arithmetic call returns a value although some point is an invalid
+\* scalar case (division by zero, infinity - infinity, infinity / infinity):
+\* the recursion took a shortcut on a whole sub-function before reaching the
+\* invalid point.  The deviation is recognised only if the returned table is
+\* right at every valid point and, at *every* invalid point, shows one and
+\* the same shortcut:
+\*   first-operand-zero : first operand 0, result 0          (DIVIDE, MODULO)
+\*   equal-operands     : operands equal, result 1 / 0 / 0   (DIVIDE / MODULO / MINUS)
+\*   both-infinite      : both operands infinite, result infinite (EV+)
+DevErrShortcut(ev, out) ==
+    IF ~(ev.e = "Bin" /\ ev.op \in {"DIVIDE", "MODULO", "MINUS"} /\ ev.ok = 1 /\ ~out.ok
+         /\ out.errs \subseteq ArithErrs /\ Has(ev.res, "fn")
          /\ LiveEdge(ev.a) /\ LiveEdge(ev.b)) THEN ""
     ELSE
     LET A == edges[ev.a].fn  B == edges[ev.b].fn  R == ev.res.fn
         cls == Cls(fors[edges[ev.a].f])
         one == IF IsReal(cls) THEN 64 ELSE 1
-        Z == {i \in DOMAIN B : B[i] = 0}
-        rest == \A i \in DOMAIN B \ Z :
-                    LET x == ScBin(ev.op, cls, A[i], B[i]) IN Bad(x) \/ Bad(R[i]) \/ x = R[i]
-    IN IF ~rest THEN ""
-       ELSE IF \A i \in Z : A[i] = 0 /\ R[i] = 0 THEN ev.op \o ":shortcut:first-operand-zero"
+        X  == [i \in DOMAIN B |-> IF Bad(A[i]) \/ Bad(B[i]) THEN OffGrid ELSE ScBin(ev.op, cls, A[i], B[i])]
+        Z  == {i \in DOMAIN B : IsErrV(X[i])}
+        rest == \A i \in DOMAIN B \ Z : Bad(X[i]) \/ Bad(R[i]) \/ X[i] = R[i]
+    IN IF ~rest \/ Z = {} THEN ""
+       ELSE IF ev.op # "MINUS" /\ \A i \in Z : A[i] = 0 /\ R[i] = 0
+            THEN ev.op \o ":shortcut:first-operand-zero"
        ELSE IF \A i \in Z : A[i] = B[i] /\ R[i] = (IF ev.op = "DIVIDE" THEN one ELSE 0)
             THEN ev.op \o ":shortcut:equal-operands"
-       ELSE ""
+       ELSE IF \A i \in Z : A[i] = Inf /\ B[i] = Inf /\ R[i] = Inf
+            THEN ev.op \o ":shortcut:both-infinite"
+       ELSE ev.op \o ":invalid-point-not-detected"
+
+\* DIST_INC with an identity-reduced argument forest is wrong wherever the
+\* argument skips an identity level (the incremented value is re-expanded with
+\* identity patterns whose off-diagonal entries are 0, and from level 0 instead
+\* of the node's level, which can even produce an edge that cannot be
+\* evaluated).  Any disagreement of a DIST_INC call whose argument forest is
+\* identity-reduced falls in this class; every other DIST_INC call is checked
+\* in full.
+DevDistInc(ev, out) ==
+    IF ev.e = "Un" /\ ev.op = "DIST_INC" /\ ev.ok = 1 /\ out.ok
+       /\ LiveEdge(ev.a) /\ fors[edges[ev.a].f].rule = "I"
+    THEN "DIST_INC:identity-reduced-argument" ELSE ""
+
+\* COPY from an identity-reduced multi-terminal (or EV*) relation into an EV+ relation:
+\* the zeros implicit in skipped identity levels of the source are rebuilt with
+\* the *target's* transparent value, +infinity.  Recognised only for that forest
+\* combination and only if the result is wrong exactly at points where the
+\* source is 0 and the result is +infinity.
+DevCopy(ev, out) ==
+    IF ~(ev.e = "Un" /\ ev.op = "COPY" /\ ev.ok = 1 /\ out.ok /\ Has(ev.res, "fn")
+         /\ LiveEdge(ev.a) /\ LiveEdge(ev.r)
+         /\ fors[edges[ev.a].f].rule = "I" /\ fors[edges[ev.a].f].lab \in {"MT", "ET"}
+         /\ fors[edges[ev.r].f].lab = "EP") THEN ""
+    ELSE LET A == edges[ev.a].fn  R == ev.res.fn
+             D == {i \in DOMAIN A : ~Bad(out.fn[i]) /\ ~Bad(R[i]) /\ out.fn[i] # R[i]}
+         IN IF D # {} /\ \A i \in D : A[i] = 0 /\ R[i] = Inf
+            THEN "COPY:identity-reduced->EV+relation:implicit-zero-becomes-infinity" ELSE ""
+
+DevWrong(ev, out) ==
+    IF DevDistInc(ev, out) # "" THEN DevDistInc(ev, out) ELSE DevCopy(ev, out)
 
 \* compare the specification's outcome with the recorded one
 OutcomeViol(out, ev, p) ==
     IF out.err = "unmodelled" THEN {}
     ELSE IF out.ok
     THEN IF ev.ok = 1
-         THEN IF ~Has(ev.res, "fn") THEN {V(p, "result-cannot-be-evaluated-" \o ev.res.oerr)}
+         THEN IF ~Has(ev.res, "fn")
+              THEN (IF DevDistInc(ev, out) # "" THEN {V(p, "KF:" \o DevDistInc(ev, out))}
+                    ELSE {V(p, "result-cannot-be-evaluated-" \o ev.res.oerr)})
               ELSE IF FnEq(out.fn, ev.res.fn) THEN {}
-              ELSE {V(p, "wrong-function")}
+              ELSE LET k == DevWrong(ev, out) IN
+                   IF k # "" THEN {V(p, "KF:" \o k)} ELSE {V(p, "wrong-function")}
          ELSE {V(p, "unexpected-error-" \o ev.err)}
     ELSE IF ev.ok = 1
-         THEN LET k == DevDivShortcut(ev, out) IN
+         THEN LET k == DevErrShortcut(ev, out) IN
               IF k # "" THEN {V(p, "KF:" \o k)}
               ELSE {V("C16", "no-error-raised-expected-" \o out.err)}
                    \cup (IF out.errs \subseteq ArithErrs THEN {V(p, "no-error-raised-expected-" \o out.err)} ELSE {})
@@ -328,12 +368,25 @@ DoCard(ev) ==
                (IF ev.cd # c THEN {V("C11", "cardinality-double")} ELSE {}) \cup
                (IF ev.cz # c THEN {V("C11", "cardinality-mpz")} ELSE {}))
 
+\* MAX_RANGE / MIN_RANGE on an identity-reduced relation ignore the zeros that
+\* are implicit in skipped (identity) levels: recognised only if the forest is
+\* an identity-reduced relation, the right answer is 0, and the answer given is
+\* the extreme over the non-zero values.
+DevRange(ev, x) ==
+    LET F == FOf(ev.a)  fn == edges[ev.a].fn
+        NZ == {fn[i] : i \in {j \in DOMAIN fn : fn[j] # 0}}
+    IN IF F.rel /\ F.rule = "I" /\ x = 0 /\ NZ # {}
+          /\ ev.v = (IF ev.which = "MAX" THEN SetMax(NZ) ELSE SetMin(NZ))
+       THEN ev.which \o "_RANGE:identity-reduced-relation:implicit-zero-ignored" ELSE ""
+
 DoRng(ev) ==
     Query(IF ~LiveEdge(ev.a) THEN (IF ev.ok = 1 THEN {V("C16", "range-of-detached-edge-accepted")} ELSE {})
           ELSE IF ~(FOf(ev.a).lab = "MT" /\ FOf(ev.a).rng \in {"I", "R"}) THEN {}
           ELSE IF ev.ok = 0 THEN {V("C05", "range-query-failed-" \o ev.err)}
           ELSE LET x == IF ev.which = "MAX" THEN MaxRange(edges[ev.a].fn) ELSE MinRange(edges[ev.a].fn) IN
-               IF Bad(x) \/ Bad(ev.v) \/ x = ev.v THEN {} ELSE {V("C05", "wrong-range-value")})
+               IF Bad(x) \/ Bad(ev.v) \/ x = ev.v THEN {}
+               ELSE IF DevRange(ev, x) # "" THEN {V("C05", "KF:" \o DevRange(ev, x))}
+               ELSE {V("C05", "wrong-range-value")})
 
 DoIter(ev) ==
     Query(IF ~LiveEdge(ev.a) THEN (IF ev.ok = 1 THEN {V("C16", "iteration-of-detached-edge-accepted")} ELSE {})
